@@ -660,3 +660,17 @@ def fn_min(a, b):
                     return q
     ka, kb = sorted([a, b], key=lambda r: repr(r.key()))
     return RF.atom(app_atom('min', ka, kb))
+
+
+# --- division log ------------------------------------------------------------------------------------------------------
+# Normal forms cancel common factors ((d / r) * r is d), which is what makes algebraically equal rewrites equal — and what hides a division by a
+# quantity that can be zero.  Rules that care (C19) switch the log on around an evaluation: every division the evaluated code performs by a
+# non-constant value is recorded with the conditions it was performed under.
+DIV_LOG = None
+DIV_TRACK = False          # rule modules that opt in: every top-level evaluation reports its removable singularities to DIV_REPORTS
+DIV_REPORTS = []
+
+
+def log_div(b, guard=()):
+    if DIV_LOG is not None and isinstance(b, RF) and not b.is_const():
+        DIV_LOG.append((b, tuple(guard or ())))
